@@ -280,6 +280,7 @@ class FnSpec:
         self.closures = {}
         self.nested = {}
         self.loop_iter_names = {}
+        self.lenient = False
         self.opaques = []
         self.opaque_exprs = []
         self.opaque_forbid = []
@@ -379,6 +380,7 @@ def parse_vspec(path):
             fs.within = d.get('within')
             fs.external_body = 'external_body' in flags
             fs.optional = 'optional' in flags
+            fs.lenient = 'lenient' in flags
             i += 1
             while i < len(lines) and lines[i].strip() != '@endfn':
                 s2 = lines[i].strip()
@@ -487,6 +489,7 @@ class Result:
         self.canary_fns = []
         self.canary_lines = {}
         self.proof_lines = []      # generated line ranges that are spliced proof text (hints), not repository code
+        self.degraded = []         # fns whose loop specs / hints could not be placed (lenient): their failures are witness-gated
 
     def fn_at(self, line):
         for f in self.fnspans:
@@ -592,6 +595,7 @@ def canary_spec(spec):
 class Extractor:
     def __init__(self, repo, overlay=None):
         self._notes = []
+        self._degraded = []
         self.repo = repo
         self.overlay = overlay or {}
         self.files = {}
@@ -955,10 +959,33 @@ class Extractor:
         loop_heads = [k for k, t in enumerate(toks) if t.kind == 'ident' and t.text in ('while', 'loop', 'for')
                       and not (k > 0 and toks[k - 1].text in ('.', '::'))]
         loop_heads = [k for k in loop_heads if not (toks[k].text == 'for' and k + 1 < len(toks) and toks[k + 1].text == '<')]
+        degraded = False
+        loops = fs.loops
         if sorted(fs.loops) != list(range(1, len(loop_heads) + 1)):
-            raise Undecided('lost anchor: loop count changed in %s: %d loops in body, specs for %s'
-                            % (where, len(loop_heads), sorted(fs.loops)))
-        for n, text in fs.loops.items():
+            if fs.lenient and not loop_heads:
+                # the loop this invariant was written for is gone: the body is verified without it; what fails then is
+                # reported only with a failing input (the function is marked degraded)
+                loops = {}
+                degraded = True
+                self._notes.append('lenient: %s has no loop any more, loop specification(s) %s not spliced' % (where, sorted(fs.loops)))
+            else:
+                raise Undecided('lost anchor: loop count changed in %s: %d loops in body, specs for %s'
+                                % (where, len(loop_heads), sorted(fs.loops)))
+        if getattr(self, '_loop_canary_base', None) is not None:
+            # vacuity canary per LOOP BODY: an inconsistent context inside a loop body (e.g. contradictory shim
+            # postconditions) would prove the invariant's preservation vacuously and is invisible at the function end
+            self._loop_canary_count = 0
+            for h in loop_heads:
+                k2 = h + 1
+                while toks[k2].text != '{':
+                    if toks[k2].text in ('(', '['):
+                        k2 = match_close(toks, k2)
+                    k2 += 1
+                close = match_close(toks, k2)
+                idx = self._loop_canary_base + self._loop_canary_count
+                self._loop_canary_count += 1
+                inserts.append((toks[close].start, '\nproof { assert(canary__%d() ==> false); }\n' % idx, 3))
+        for n, text in loops.items():
             k = loop_heads[n - 1] + 1
             if n in fs.loop_iter_names:
                 if toks[loop_heads[n - 1]].text != 'for':
@@ -985,6 +1012,10 @@ class Extractor:
                     hit = k
                     break
             if hit is None:
+                if fs.lenient:
+                    degraded = True
+                    self._notes.append('lenient: anchor `%s` not found in %s, proof text not spliced' % (needle, where))
+                    continue
                 raise Undecided('lost anchor: `%s` in %s' % (needle, where))
             off = toks[hit].start if pos == 'before' else toks[hit + len(ntoks) - 1].end
             inserts.append((off, '\n' + text + '\n', 0 if pos == 'before' else 2))
@@ -1058,6 +1089,8 @@ class Extractor:
                 inserts.append((toks[k].start, ('REPLACE', toks[b - 1].end, '-> (%s: %s)\n%s\n' % (ret, ty, text)), 1))
             else:
                 inserts.append((toks[b].start, '\n' + text + '\n', 1))
+        if degraded:
+            self._degraded.append(where)
         inserts.sort(key=lambda x: (x[0], x[2]))
 
         def render(lo, hi):
@@ -1152,7 +1185,13 @@ class Extractor:
             res.drops.append('A3 body of %s replaced by unimplemented!() (assumed contract)' % qual)
             segs = [('{ unimplemented!() }', False)]
         else:
+            self._loop_canary_base = len(res.canary_fns) if canary else None
+            self._loop_canary_count = 0
             segs = self._splice_body(body, fs, where)
+            loop_canaries = list(range(len(res.canary_fns), len(res.canary_fns) + self._loop_canary_count)) if canary else []
+            for j, idx in enumerate(loop_canaries):
+                res.canary_fns.append('%s [loop body %d]' % (qual, j + 1))
+            self._loop_canary_base = None
         repo_line = body_line
         seg_maps = []
         pending = ''
@@ -1174,6 +1213,11 @@ class Extractor:
             out.add(pending)
             seg_maps.append((ls, out.lineno - 1, repo_line))
         end = out.lineno - 1
+        if canary and not fs.external_body:
+            for ln in range(start, end + 1):
+                m = re.search(r'assert\(canary__(\d+)\(\) ==> false\)', out.lines[ln - 1])
+                if m:
+                    res.canary_lines[ln] = res.canary_fns[int(m.group(1))]
         res.fnspans.append({'out_start': start, 'out_end': end, 'fn': qual, 'file': sf.rel,
                             'repo_line': sig_line, 'body_out_start': seg_maps[0][0] if seg_maps else start,
                             'body_repo_line': body_line, 'segs': seg_maps,
@@ -1327,6 +1371,7 @@ class Extractor:
     def run(self, vspec_path, canary=False):
         self._canary = canary
         self._notes = []
+        self._degraded = []
         unit, nodes = parse_vspec(vspec_path)
         out = Out()
         res = Result()
@@ -1420,6 +1465,7 @@ class Extractor:
         out.add('} // verus!')
         out.add('fn main() {}')
         res.drops += self._notes
+        res.degraded = list(self._degraded)
         res.text = out.text()
         res.labels = out.labels
         res.fnspans = res.fnspans
